@@ -502,3 +502,21 @@ def tables_const_strings(c):
       isinstance(e, ast.Constant) and isinstance(e.value, str) for e in c.elts):
     return [e.value for e in c.elts]
   return None
+
+
+def clone(node):
+  """Deep copy of an AST subtree that keeps the back references the model
+  attaches to names (`_mod`, `_fi`) shared instead of copying what they point
+  to (copy.deepcopy would copy the whole repository model)."""
+  if isinstance(node, list):
+    return [clone(x) for x in node]
+  if not isinstance(node, ast.AST):
+    return node
+  new = node.__class__()
+  for f in node._fields:
+    if hasattr(node, f):
+      setattr(new, f, clone(getattr(node, f)))
+  for a in ('lineno', 'col_offset', 'end_lineno', 'end_col_offset', '_mod', '_fi'):
+    if hasattr(node, a):
+      setattr(new, a, getattr(node, a))
+  return new
